@@ -90,6 +90,11 @@ claim("C07", "fault_enumeration",
       "Restart.tla defines the future-relevant fields per ensemble and the taint semantics of a restart (a field the dictionary does not determine is lost and makes every later state diverge); TLC enumerates <ensemble, table shape, n, k>. For every enumerated tuple the real driver runs with its default RestartObserver; for EVERY k the captured bytes of step k are loaded with read_json, rebuilt with <Driver>.from_dict, given a fresh calculator and continued; atoms, cell, momenta, reference energy, move history, labels of every move, particle counter, step counter and generator state must equal the uninterrupted run at every later step.",
       "Trusted: TLC, ase.io.jsonio. Calculators are deterministic functions of the configuration. ForceBias/AdaptiveForceBias offer no from_dict: only that their restart observer writes loadable JSON. n = 4 (quick) / 6 (thorough), 1 / 3 seeds x 2 calculators.", "5 C07")
 
+claim("C06", "model_checking",
+      "TLC on the self-composition with an environment perturbing the global generators (Determinism.tla) + TLC validation of A/B/C experiments recorded from all seven drivers (Determinism_Trace.tla) with every global-generator entry point wrapped",
+      "Determinism.tla: two simulations consume their own seed-determined streams while the environment may change the global generators at any time; same seed => same state, different seeds => different states, seed 0 ordinary. For every driver x table x seed (0, 1, 42, 2^32-1, 2^32+7, 2^63+5, random) three real runs are recorded (A; B with the same seed after re-seeding and advancing numpy's and Python's global generators; C with seed+1 or seed+2^32) as per-step tokens of positions/cell/numbers/momenta/move history and the log bytes; all module-level entry points of numpy.random and random are wrapped so that any use is an event regardless of state; TLC judges A = B, C != A, no global event, seed honoured, own generator used.",
+      "Trusted: TLC; interception at the entry points of numpy.random / random (a C extension reading the global state directly would escape). Bound: 5 steps (quick) / 25 (thorough).", "5 C06")
+
 NOT_YET = "check not built yet in this round (planned in DESIGN.md section 5); will be claimed once its spec and conformance harness exist"
 
 
